@@ -50,6 +50,10 @@ func probes() []envsim.Hook {
 		for _, w := range []string{"-1", "+1"} {
 			hs = append(hs, envsim.Hook{ID: m + w, Trigger: m + w, Critical: true})
 		}
+		if m == "before_START_ACTIVITY" {
+			// weight 0 (the default weight) is the first non-negative one: the set-point lies before it
+			hs = append(hs, envsim.Hook{ID: m + "+0", Trigger: m + "+0", Critical: true})
+		}
 	}
 	return hs
 }
@@ -127,12 +131,13 @@ func b(x bool) string {
 }
 
 type run struct {
-	n        string
-	sosor    string
-	seen     map[string]string // stamp -> value once non-empty
-	running  bool              // reached RUNNING
-	open     bool
-	startOp  string
+	n       string
+	sosor   string
+	seen    map[string]string // stamp -> value once non-empty
+	running bool              // reached RUNNING
+	open    bool
+	stopped bool // ended by a completed STOP_ACTIVITY
+	startOp string
 }
 
 func oracle(w *envsim.World, hist []int) (viol []vrt.Violation) {
@@ -179,8 +184,11 @@ func oracle(w *envsim.World, hist []int) (viol []vrt.Violation) {
 				// cannot happen: START is only legal from CONFIGURED
 			}
 			// remember what is visible now to compare with what gets assigned
-			preN := v["run_number"]
-			_ = preN
+			// ... and nothing of an earlier, completely stopped run is visible any more ("gone afterwards",
+			// "values of a previous run are never visible in the next"), under either name
+			if cur != nil && !cur.open && cur.stopped && (v["run_number"] != "" || v["runNumber"] != "") {
+				fail("previous-run-number-visible-before-set-point", "at %s:%s run_number=%q runNumber=%q, run %s was stopped", r.Kind, r.ID, v["run_number"], v["runNumber"], cur.n)
+			}
 			continue
 		}
 		if isStart && !assignedThisOp && od.failAt != "before_START_ACTIVITY-1" {
@@ -262,6 +270,7 @@ func oracle(w *envsim.World, hist []int) (viol []vrt.Violation) {
 					cur.seen[s] = v[s]
 				}
 				cur.open = false
+				cur.stopped = true
 			case od.event == "GO_ERROR" && st == "ERROR" && cur.running:
 				for _, s := range stamps[2:] {
 					if v[s] == "" {
@@ -291,8 +300,8 @@ func oracle(w *envsim.World, hist []int) (viol []vrt.Violation) {
 			continue
 		}
 		if r.Kind == "ret" && ops[hist[opIdx]].event == "STOP_ACTIVITY" && r.Vars["__state"] == "CONFIGURED" {
-			if r.Vars["run_number"] != "" || r.Vars["__rn"] != "0" {
-				fail("run-number-not-gone-after-stop", "after %s: run_number=%q current=%s", ops[hist[opIdx]].name, r.Vars["run_number"], r.Vars["__rn"])
+			if r.Vars["run_number"] != "" || r.Vars["runNumber"] != "" || r.Vars["__rn"] != "0" {
+				fail("run-number-not-gone-after-stop", "after %s: run_number=%q runNumber=%q current=%s", ops[hist[opIdx]].name, r.Vars["run_number"], r.Vars["runNumber"], r.Vars["__rn"])
 			}
 		}
 	}
